@@ -230,6 +230,12 @@ def plan(tier, seed):
                 P.append({'kind': 'ordered', 'clause': 'cost', 'fam': fam, 'param': name, 'values': vals, 'extra': {}})
                 if tier == 'thorough' or (em == 2 and pair in ((1, 1), (31, 2))):
                     P.append({'kind': 'ordered', 'clause': 'cost', 'fam': fam, 'param': name, 'values': vals, 'extra': {'Maximum Drawdown': '0.05'}})
+    # closed-loop (SBT) economics: same cost monotonicity
+    for fam in F.sbt_grid(econs=(1, 2, 3) if tier == 'thorough' else (3,), configs=(5,), pairs=((1, 2), (2, 9), (31, 1))):
+        for name, vals in COST_AL.items():
+            P.append({'kind': 'ordered', 'clause': 'cost', 'fam': fam, 'param': name, 'values': vals, 'extra': {}})
+        for name, vals in (('All-in Nonvertical Drilling Costs', ['300', '700', '1300', '4000']), ('All-in Vertical Drilling Costs', ['300', '1000', '4000'])):
+            P.append({'kind': 'ordered', 'clause': 'cost', 'fam': fam, 'param': name, 'values': vals, 'extra': {'Well Drilling Cost Correlation': '5'}})
     return P
 
 
